@@ -4,6 +4,7 @@ Streams (model `Wpull.Filter` vs the real code in the wpull checkout):
   similar   wpull.url.schemes_similar                                   function level
   subdir    wpull.url.is_subdir (fnmatch result logged from the real call)
   commalist AppArgumentParser.comma_list (the converter behind every LIST option) vs model commaList
+  tablevisits  the retry limit over a long history of ONE URL through the real SQLiteURLTable + real TriesFilter
   build     real AppArgumentParser -> real URLFiltersSetupTask._build_url_filters +
             real URLFiltersPostURLImportSetupTask  vs  model buildFilters
   test      real FetchRule.consult_filters / DemuxURLFilter.test_info on the REAL filter
@@ -56,7 +57,7 @@ RULE = ('test: command lines generated option by option (each scope option on/of
         'ftpcrawl: one case = one FTP crawl from a command-line URL (16 start shapes incl. glob patterns matching files, directories or both) '
         'x {-r} x {-l 1,2,3,inf} x a few reject rules x glob on/off, up to 14 items each; non-trivial = at least 2 requests. '
         'crawl: one case = one end-to-end crawl (5 origins: start host, forbidden host, other port, https port, www.; '
-        'links, page requisites, iframes (embedded HTML documents with plain links and further requisites) and 1-2 hop redirects across them; sitemap.xml / robots.txt Sitemap: lines with --sitemaps in 25%; requests are judged under the record implied by the true provenance (which item offered the URL) and the link kinds along the path; 1-3 workers; robots on in ~25%); non-trivial = at least 2 page requests.')
+        'links, page requisites, iframes (embedded HTML documents with plain links and further requisites) and 1-2 hop redirects across them; sitemap.xml / robots.txt Sitemap: lines with --sitemaps in 25%; pages failing with HTTP 500 for their first 1-6 requests; fixed crawls redirecting into each kind of excluded territory; the retry rule is judged by the visits seen on the wire; requests are judged under the record implied by the true provenance (which item offered the URL) and the link kinds along the path; 1-3 workers; robots on in ~25%); non-trivial = at least 2 page requests.')
 TRUSTED = ['the `re` engine and `fnmatch` are oracles of the model: their results are logged from the real calls and handed to the model',
            'URL parsing (URLInfo.parse) is engine Url\'s business: filters receive the parsed fields',
            'harness/fakenet.py in-memory transports (web/ftp session streams)',
@@ -616,6 +617,53 @@ def stream_commalist(ctx, strings):
                      'comma_list(%r) = %r; the entries the user named are %r' % (x, got, want))
 
 
+def stream_tablevisits(ctx, cases):
+    """The retry limit through the REAL URL table: one URL is visited again and again - check_out, TriesFilter on the
+    record the table hands out, "request" if accepted, check_in the way set_status does it (a URLResult and
+    increment_try_count=True) or the way skip() does (no result, no increment).  cases: (tries, statuses)."""
+    from wpull.database.sqltable import SQLiteURLTable
+    from wpull.database.base import AddURLInfo, NotFound
+    from wpull.pipeline.item import Status, URLProperties, URLData, URLResult
+    from wpull.urlfilter import TriesFilter
+    for tries, plan in cases:
+        table = SQLiteURLTable(':memory:')
+        url = 'http://a.example/flaky'
+        table.add_many([AddURLInfo(url, None, None)])
+        flt = TriesFilter(tries)
+        wire, stored, lines, reals = 0, [], [], []
+        case = {'stream': 'tablevisits', 'tries': tries, 'plan': plan}
+        for status in plan:
+            rec = None
+            for st in (Status.todo, Status.error):
+                try:
+                    rec = table.check_out(st)
+                    break
+                except NotFound:
+                    pass
+            if rec is None:
+                break
+            stored.append(rec.try_count)
+            if flt.test(parse(url), rec):
+                if tries and wire >= tries:
+                    ctx.fail('out-of-scope-request', 'table-history', case,
+                             'visit %d of %s is requested although it was already requested %d times and --tries is %d '
+                             '(the table hands out try_count=%d)' % (wire + 1, url, wire, tries, rec.try_count))
+                wire += 1
+                counted = status != 'skipped'
+                table.check_in(url, Status(status), increment_try_count=counted, url_result=URLResult() if counted else None)
+                lines.append('filter checkin %d %s %s' % (rec.try_count, enc_bool(counted), enc_bool(counted)))
+            else:
+                table.check_in(url, Status.skipped, increment_try_count=False)
+                lines.append('filter checkin %d F F' % rec.try_count)
+            reals.append(table.get_one(url).try_count)
+        table.close()
+        for rep, real in zip(ctx.model.ask(lines), reals):
+            if rep != str(real):
+                ctx.disagree('tablevisits', case, rep, str(real))
+                break
+        ctx.case(('tablevisits', tries, tuple(plan)), nontrivial=len(plan) > 1, tags=['tablevisits:requests=%d' % min(wire, 5)])
+
+
 def run_tests(ctx, cases, log):
     """cases: dicts {argv, hostnames, url, record, is_redirect}.  build + test streams + oracle."""
     reqs, metas = [], []
@@ -921,6 +969,15 @@ async def _drive(proc, item):
     return 'ok'
 
 
+def is_virtual_truthy():
+    """how `if item_session.is_virtual:` goes for an ordinary crawl item, on the REAL ItemSession class"""
+    from wpull.pipeline.session import ItemSession
+    try:
+        return bool(ItemSession(types.SimpleNamespace(factory={}), make_record('http://a.example/', {'level': 0, 'try_count': 0})).is_virtual)
+    except Exception:          # noqa
+        return True
+
+
 def real_web_session(demux, record, site, strong, robots):
     """The REAL WebProcessorSession (real FetchRule, WebClient, http Client, RedirectTracker,
     RobotsTxtChecker) against a scripted server. -> (outcome, requests seen by the server)"""
@@ -1101,8 +1158,8 @@ def run_web_cases(ctx, cases, log):
             else:
                 resps.append('F')
                 break
-        reqs.append('filter web %s %s %s %s %s %s %s %s' % (
-            enc_filters(demux.url_filters), enc_bool(args.strong_redirects), enc_bool(args.robots),
+        reqs.append('filter web %s %s %s %s %s %s %s %s %s' % (
+            enc_filters(demux.url_filters), enc_bool(args.strong_redirects), enc_bool(args.robots), enc_bool(is_virtual_truthy()),
             enc_rec(c['record']), enc_info(ui), rob, ';'.join(resps), log.tables()))
         metas.append((c, args, outcome, seen, chain, robots_url_of))
     reps = ctx.model.ask(reqs)
@@ -1492,6 +1549,10 @@ def gen_crawl_site(rng):
         site['a.test'][start] = {'kind': 'html', 'links': []}
     site['a.test'][start]['links'] += [('/d/r1', False), (rng.choice(pool), False), ('http://b.test/y.html', False),
                                        (rng.choice(fpool), 'frame')]
+    # URLs that keep failing with a retryable error: more often than any --tries in use allows
+    site['a.test']['/d/flaky.html'] = {'kind': 'flaky', 'fails': rng.choice([1, 2, 3, 4, 5, 6])}
+    site['a.test']['/d/flaky2.txt'] = {'kind': 'flaky', 'fails': rng.choice([3, 4, 6])}
+    site['a.test'][start]['links'] += [('/d/flaky.html', False), ('/d/flaky2.txt', False)]
     for h in CR_HOSTKEYS:
         r = rng.random()
         if r < 0.5:
@@ -1587,6 +1648,14 @@ def _cr_server(site):
                 out[h][t] = Page(200, body.encode(), ctype='application/xml')
             elif k == 'redirect':
                 out[h][t] = Page(p.get('code', 301), b'', location=p['location'])
+            elif k == 'flaky':
+                # a retryable server error for the first `fails` requests, then the document
+                def flaky(entry, left=[p['fails']]):
+                    if left[0] > 0:
+                        left[0] -= 1
+                        return Page(500, b'boom', ctype='text/plain')
+                    return Page(200, b'finally', ctype='text/plain')
+                out[h][t] = flaky
             else:
                 out[h][t] = Page(404, b'nope', ctype='text/plain')
     return out
@@ -1679,10 +1748,15 @@ def _crawl_work(case):
             return {'url': url, 'record': rec, 'true_record': trec, 'flag': flag, 'real': rep, 'line': line,
                     'broken': _justified(args, hostnames, url, trec, flag)}
 
+        visits = {}       # item URL -> visits seen ON THE WIRE so far (check-outs in which the item URL was requested)
+        cur_co = {}       # item URL -> index of its current check-out
+        cur_try = {}      # item URL -> that number at its current check-out (constant during one visit)
+
         def true_of(u, rec):
             t = true_rec.get(u)
-            return dict(rec, level=t['level'], inline_level=t['inline_level'], parent_url=t['parent_url'],
-                        root_url=t['root_url']) if t else dict(rec)
+            base = dict(rec, try_count=cur_try.get(u, 0))    # the retry limit counts visits, whatever the table stored
+            return dict(base, level=t['level'], inline_level=t['inline_level'], parent_url=t['parent_url'],
+                        root_url=t['root_url']) if t else base
         first_batch = True
         pending = {}
         for e in merged:
@@ -1731,8 +1805,10 @@ def _crawl_work(case):
                 out_rec[u] = {'parent_url': b.get('parent'), 'root_url': b.get('root'), 'level': e['level'],
                               'inline_level': e['inline_level'], 'try_count': e['try_count']}
                 hops[u] = 0
+                cur_try[u] = visits.get(u, 0)
                 fetched_items.discard(u)
                 j = judge_one(u, out_rec[u], False, true_of(u, out_rec[u]))
+                cur_co[u] = len(checkouts)
                 checkouts.append(j)
                 candidates.append(j)
             elif op == 'fetch':
@@ -1747,13 +1823,15 @@ def _crawl_work(case):
                 j = judge_one(e['url'], rec, hop > 0 and strong, true_of(item, rec))
                 j.update(item=item, hop=hop)
                 fetches.append(j)
+                if hop == 0:
+                    visits[item] = visits.get(item, 0) + 1
                 pg = page_of(e['url'])
                 if pg['kind'] == 'redirect':
                     tgt = parse(urljoin(e['url'], pg['location'])).url
                     candidates.append(judge_one(tgt, rec, strong, true_of(item, rec)))
             elif op == 'check_in':
                 if e['status'] == 'skipped' and e['url'] in out_rec and e['url'] not in fetched_items:
-                    skips.append(e['url'])
+                    skips.append(cur_co[e['url']])
     requests = [parse(_cr_url(r)).url for r in res.requests]
     return {'fetches': fetches, 'candidates': [{'url': c['url'], 'broken': c['broken']} for c in candidates],
             'checkouts': [{'url': c['url'], 'broken': c['broken'], 'record': c['record']} for c in checkouts], 'skips': skips,
@@ -1841,10 +1919,10 @@ def run_crawl_cases(ctx, cases):
                      'the server received %s: not a page request of a checked-out item and not the robots.txt of an origin being visited' % u)
         # ---- converse (cheap): in scope at check-out, yet skipped without any request
         if not r['robots']:
-            acc = {co['url']: co for co in r['checkouts'] if not co['broken']}
-            for u in r['skips']:
-                if u in acc:
-                    ctx.disagree('crawl-skip', dict(case, item=u, record=acc[u]['record']), 'reference: in scope',
+            for i in r['skips']:
+                co = r['checkouts'][i]
+                if not co['broken']:
+                    ctx.disagree('crawl-skip', dict(case, item=co['url'], record=co['record']), 'reference: in scope',
                                  'skipped without a request')
     if cases:
         ctx.sample({'stream': 'crawl', 'start': cases[0]['start'], 'extra': cases[0]['extra'], 'workers': cases[0]['conc'],
@@ -1998,6 +2076,8 @@ def replay(ctx, case, kind=None, where=None):
             stream_subdir(ctx, [(case['base'], case['test'], case['trailing_slash'], case['wildcards'])], log)
         elif s == 'commalist':
             stream_commalist(ctx, [case['string']])
+        elif s == 'tablevisits':
+            stream_tablevisits(ctx, [(case['tries'], case['plan'])])
         elif s == 'web':
             run_web_cases(ctx, [case], log)
         elif s == 'ftp':
@@ -2027,9 +2107,20 @@ def replay(ctx, case, kind=None, where=None):
 
 
 def run_assumptions(ctx):
+    """`check_subsequent_web_request` overrides the verdict with True for items whose `is_virtual` is truthy (proxy
+    coprocessor).  For an ordinary crawl item it must be falsy - read the way the code reads it (`if item.is_virtual:`)
+    on a REAL ItemSession.  A broken assumption is reported, and the session / crawl streams then show the requests."""
     from wpull.pipeline.session import ItemSession
-    if ItemSession.is_virtual.fget(object()) is not False:
-        ctx.fail('assumption', 'is_virtual', {'stream': 'assumption'}, 'ItemSession.is_virtual is no longer False')
+    try:
+        v = ItemSession(types.SimpleNamespace(factory={}), make_record('http://a.example/', {'level': 0, 'try_count': 0})).is_virtual
+        truthy = bool(v)
+    except Exception as e:          # noqa
+        truthy, v = True, 'raises %s' % type(e).__name__
+    ctx.case(('assumption', 'is_virtual', repr(v)[:40]), nontrivial=False, tags=['assumption:is_virtual=%s' % truthy])
+    if truthy:
+        ctx.fail('assumption', 'is_virtual', {'stream': 'assumption'},
+                 '`if item_session.is_virtual:` is taken for an ordinary crawl item (value %r): check_subsequent_web_request '
+                 'then accepts every redirect target and retry whatever the filters say' % (v,))
 
 
 def run(ctx):
@@ -2057,6 +2148,11 @@ def run(ctx):
             strs.append(''.join(rng.choice(['a', 'b', '.x', ',', ',', ' ', ' ', '\t', '*', '\u00a0', '\x85', '/'])
                                 for _ in range(rng.randrange(0, 10))))
         stream_commalist(ctx, strs)
+        # the retry limit over a long history of one URL, through the real table
+        tv = [(t, ['error'] * n) for t in (0, 1, 2, 3, 5, 20) for n in (1, 2, 3, 4, 6, 22)]
+        for _ in range(ctx.scale(40, 400)):
+            tv.append((rng.choice([1, 2, 3, 4]), [rng.choice(['error', 'error', 'error', 'done', 'skipped']) for _ in range(rng.randrange(1, 9))]))
+        stream_tablevisits(ctx, tv)
         # option -> filters -> verdict
         run_tests(ctx, boundary_cases(rng), log)
         n = ctx.scale(20000, 400000)
@@ -2086,6 +2182,21 @@ def run(ctx):
                 cc_['site']['a.test']['/d/'] = {'kind': 'html', 'links': []}
             cc_['site']['a.test']['/d/']['links'] += [('/d/f1.html', 'frame'), ('http://b.test/fr.html', 'frame')]
             ccases.append(cc_)
+    # redirects from an in-scope page into every kind of excluded territory: the in-loop check must apply the
+    # FULL filter set to a redirect target, minus exactly the span-hosts rule under strong redirects
+    for extra, target in ((['--no-strong-redirects'], 'http://b.test/y.html'), (['--exclude-domains', 'b.test'], 'http://b.test/y.html'),
+                          (['--exclude-hostnames', 'www.a.test'], 'http://www.a.test/d/w1.html'), (['-X', '/e'], '/e/p4.html'),
+                          (['--no-parent'], '/p5.html'), (['--reject-regex', 'p5'], '/p5.html'), (['-R', 'bmp'], '/d/c.bmp'),
+                          (['--reject-regex', '^https'], 'https://a.test:8443/d/s1.html'), (['-I', '/d'], '/e/p4.html'),
+                          (['-D', 'a.test'], 'http://b.test/x')):
+        cc_ = gen_crawl_case(crng)
+        cc_['extra'] = ['--no-check-certificate', '--no-robots', '-r'] + extra
+        cc_['start'] = 'http://a.test/d/'
+        if cc_['site']['a.test']['/d/']['kind'] != 'html':
+            cc_['site']['a.test']['/d/'] = {'kind': 'html', 'links': []}
+        cc_['site']['a.test']['/d/rx.html'] = {'kind': 'redirect', 'location': target, 'code': crng.choice([301, 302, 303, 307, 308])}
+        cc_['site']['a.test']['/d/']['links'].append(('/d/rx.html', False))
+        ccases.append(cc_)
     run_crawl_cases(ctx, ccases)
     run_resume_cases(ctx, ctx.scale(3, 40))
 
